@@ -67,6 +67,32 @@ class MyMapping(collections.abc.Mapping):
         return len(self._d)
 
 
+class ReversedDict(dict):
+    """A dict subclass whose own view of its items differs from the raw table (reversed order)."""
+
+    def items(self):
+        return list(reversed(list(dict.items(self))))
+
+    def values(self):
+        return [v for _, v in self.items()]
+
+    def keys(self):
+        return [k for k, _ in self.items()]
+
+    def __iter__(self):
+        return iter(self.keys())
+
+
+def moved_ordered(d):
+    """An OrderedDict whose first key was moved to the end after construction."""
+    import collections
+
+    od = collections.OrderedDict(d)
+    if od:
+        od.move_to_end(next(iter(od)))
+    return od
+
+
 def gen(xs):
     for x in xs:
         yield x
